@@ -496,6 +496,11 @@ def run(ctx):
             if rec.get("xstar") is None:
                 ctx.fail("capture", cid, "optimiser answer not captured", inp=cell, site="harness", fingerprint="capture", failing_input=cell)
                 continue
+            # the model's phase wrap is one 2 pi step (|phi| < 3 pi): the optimiser's answer must leave room for the +pi of a flip
+            if max([abs(float(v)) for v in rec["xstar"]] or [0.0]) >= 2 * math.pi - 0.3 and rec.get("kind") != "large":
+                ctx.count("model_goal_skipped:optimiser_answer_beyond_the_one_step_wrap")
+                ctx.notes.append("cell %s: |x*| >= 2 pi - 0.3, the model fit step is not evaluated (post-conditions still are)" % cid)
+                continue
             whole, single = model_goals(ctx, out, rec, cid)
             goals.append(whole + (cell, br))
             singles[cid] = [g + (cell, br) for g in single]
